@@ -246,6 +246,43 @@ Theorem C03_threshold_weight_unit_refuted :
 Proof. exact nc_sample_thr_weight_refuted. Qed.
 Print Assumptions C03_threshold_weight_unit_refuted.
 
+(* ---- derived containers: selections of patches (any order), of bins, before sampling *)
+(* leaving out the k-th patch of container.patches[I] = the original data restricted to I without
+   its k-th entry, for every index list (unsorted, reversed, stepped, with repetitions) *)
+Theorem C03_selection_loo : forall I (M : mat) k,
+  del k (msel I M) = msel (remove_nth k I) M /\ loo (msel I M) k = total (msel (remove_nth k I) M).
+Proof. intros I M k. split; [apply del_msel | apply loo_msel]. Qed.
+Print Assumptions C03_selection_loo.
+
+Theorem C03_selection_sample : forall I (M : mat) k,
+  (k < length I)%nat -> sample (msel I M) k == total (msel (remove_nth k I) M).
+Proof. exact sample_msel. Qed.
+Print Assumptions C03_selection_sample.
+
+(* NormalisedCounts.patches[I].sample_patch_sum(): counts and both sums of weights follow the same
+   index list, sample k is the normalised count without the k-th SELECTED patch *)
+Theorem C03_selection_nc_sample_is_recount : forall auto I (M : mat) u v k,
+  (k < length I)%nat ->
+  nc_sample_sel auto I M u v k == nc_stat_sel auto (remove_nth k I) M u v.
+Proof. exact nc_sample_sel_is_recount. Qed.
+Print Assumptions C03_selection_nc_sample_is_recount.
+
+(* repeated application: x.patches[I].patches[J] holds what x.patches[I[J]] holds *)
+Theorem C03_selection_twice : forall I J (a : arrs),
+  Forall (fun j => (j < length I)%nat) J ->
+  derive [D_patches I; D_patches J] a = derive [D_patches (isel I J)] a.
+Proof. exact derive_patches_twice. Qed.
+Print Assumptions C03_selection_twice.
+
+(* pair counts selected by ascending patch ids, sums of weights by the caller's list: same totals,
+   samples that are not the statistic without the k-th selected patch *)
+Theorem C03_selection_mixed_order_refuted :
+  exists auto I (M : mat) u v k, (k < length I)%nat /\
+    total (msel (sort_nat I) M) == total (msel I M) /\
+    ~ nc_sample_sel_mixed auto I M u v k == nc_stat_sel auto (remove_nth k I) M u v.
+Proof. exact nc_sample_sel_mixed_refuted. Qed.
+Print Assumptions C03_selection_mixed_order_refuted.
+
 (* non-vacuity: concrete 3-patch instances *)
 Example C03_concrete_counts :
   let M := [[1; 2; 3]; [4; 5; 6]; [7; 8; 10]] in
@@ -303,4 +340,22 @@ Example C03_concrete_magnitudes :
   /\ c03_rerun_case tol48 [Some (1 # 3); Some 5; Some 2] [Some (1 # 3); None; Some 2] = 0%nat
   /\ c03_rerun_case tol48 [Some 0; Some 5; Some 2] [Some (1 # 3); None; Some 2] = 1%nat
   /\ c03_rerun_case tol48 [Some (1 # 3); None; Some 2] [Some (1 # 3); Some 1; Some 2] = 1%nat.
+Proof. vm_compute. repeat split; reflexivity. Qed.
+
+Example C03_concrete_derived :
+  let M := [[3; 1; 0]; [2; 5; 1]; [0; 4; 2]] in
+  let u := [2; 3; 1] in let v := [1; 1; 4] in
+  let I := [2; 0]%nat in                                    (* .patches[[2, 0]] *)
+  msel I M = [[2; 0]; [0; 3]] /\ vsel I u = [1; 2] /\ vsel I v = [4; 1]
+  /\ map (fun k => Qred (nc_sample_sel false I M u v k)) [0; 1]%nat = [3 # 2; 1 # 2]
+  /\ map (fun I' => Qred (nc_stat_sel false I' M u v)) [[0]; [2]]%nat = [3 # 2; 1 # 2]
+  /\ map (fun k => Qred (nc_sample_sel_mixed false I M u v k)) [0; 1]%nat = [1; 3 # 4]
+  (* the checker accepts the samples in the caller's order, marks those in ascending patch order
+     (bit 6) and rejects those of the mixed selection (bits 0 and 1) *)
+  /\ c03_dnc_case [D_patches I] false [M] [u] [v] [Some (1 # 3)] [[Some (3 # 2)]; [Some (1 # 2)]] = 0%nat
+  /\ c03_dnc_case [D_patches I] false [M] [u] [v] [Some (1 # 3)] [[Some (1 # 2)]; [Some (3 # 2)]] = 67%nat
+  /\ c03_dnc_case [D_patches I] false [M] [u] [v] [Some (1 # 3)] [[Some 1]; [Some (3 # 4)]] = 3%nat
+  (* .bins[[1]] of two bins, + a container, * 2, then .patches[::-1] *)
+  /\ c03_dsps_case [D_bins [1%nat]; D_add [[[1; 1]; [1; 1]]]; D_mul 2; D_patches [1; 0]%nat]
+                   [[[9; 9]; [9; 9]]; [[1; 2]; [3; 4]]] [28] [[4]; [10]] = 0%nat.
 Proof. vm_compute. repeat split; reflexivity. Qed.
